@@ -156,6 +156,75 @@ def _trace_to_accessor(m, ap):
     return None
 
 
+REORDERING = ("sort", "dedup", "reverse", "retain", "remove", "truncate", "swap", "drain", "clear", "rotate", "split_off", "pop", "insert", "push", "extend", "append", "shuffle")
+ITER_REORDERING = ("Iterator::rev", "Iterator::filter", "Iterator::skip", "Iterator::take", "Iterator::step_by", "Iterator::chain", "Iterator::filter_map",
+                   "Iterator::skip_while", "Iterator::take_while", "Iterator::cycle", "Iterator::zip", "Iterator::flat_map", "Iterator::peekable")
+
+
+def rule_a2(ctx):
+    r = RuleResult("C20-a", "list-valued options reach the library as given: the collection passed to Options::load_paths is the collected clap values, "
+                   "never reordered, filtered or de-duplicated")
+    prog, m = _main(ctx)
+    fam = [b for b in prog.bodies.values() if b.path == m.path or b.path.startswith(m.path + "::{closure")]
+    lp = [c for c in m.calls() if (c.name() or "").endswith("options::Options::load_paths")]
+    if len(lp) != 1:
+        raise AnchorMissing("main: expected one call of Options::load_paths, found %d" % len(lp))
+    c = lp[0]
+    # the Vec local behind the argument
+    aliases_calls = set()
+    cur = an.trace_operand(m, c.args[1], through_calls=False)
+    g = 0
+    while cur.root[0] == "call" and g < 6:
+        cc = m.call_at(cur.root[2])
+        if cc is None or an.tail2(cc.callee) not in ("Deref::deref", "AsRef::as_ref", "Vec::as_slice", "Borrow::borrow"):
+            break
+        aliases_calls.add(cc.bb)
+        cur = an.trace_operand(m, cc.args[0], through_calls=False)
+        g += 1
+    key = "main|load_paths|order-preserved"
+    problems = []
+    if cur.root[0] == "call":
+        src_call = m.call_at(cur.root[2])
+        vec_local = src_call.dest.local if src_call is not None and src_call.dest is not None else None
+    elif cur.root[0] == "local":
+        vec_local = cur.root[1]
+    else:
+        vec_local = None
+    if vec_local is None:
+        raise AnchorMissing("main: cannot find the collection passed to Options::load_paths (%r)" % (cur,))
+    # every other call that receives (a reference to) that local
+    def refers(op, depth=0):
+        if op.place is None or depth > 4:
+            return False
+        if op.place.local == vec_local:
+            return True
+        for bb, i, d in m.defs_of(op.place.local):
+            if isinstance(d, dict) and d["k"] in ("ref", "use"):
+                src = d["p"] if d["k"] == "ref" else d["op"].get("p")
+                if src and refers(Operand({"k": "copy", "p": {"l": src["l"]}}), depth + 1):
+                    return True
+            elif not isinstance(d, dict) and an.tail2(d.callee) in ("Deref::deref", "DerefMut::deref_mut", "AsMut::as_mut", "Vec::as_mut_slice", "Vec::as_slice") and d.args and refers(d.args[0], depth + 1):
+                return True
+        return False
+    for c2 in m.calls():
+        if c2.bb == c.bb or not any(refers(a) for a in c2.args):
+            continue
+        leaf = (an.tail2(c2.callee) or "").split("::")[-1]
+        if any(leaf.startswith(x) for x in REORDERING):
+            problems.append("%s at %s" % (c2.callee, c2.loc()))
+    # the iterator chain that builds it
+    for fb in fam:
+        for c2 in fb.calls():
+            if an.tail2(c2.callee) in ITER_REORDERING and c2.fn_args and "clap" in c2.fn_args[0] and "String" in c2.fn_args[0]:
+                problems.append("%s on the clap values at %s" % (an.tail2(c2.callee), c2.loc()))
+    if problems:
+        r.violate(key, "the load paths given on the command line are modified before they reach Options::load_paths (%s): the library searches load paths in the order "
+                  "given, so the CLI no longer resolves imports the way the library does for the same options" % "; ".join(problems), c.loc())
+    else:
+        r.ok(key)
+    return r
+
+
 def rule_b(ctx):
     r = RuleResult("C20-b", "stdout/the output file receive exactly the Ok payload of the library call; the error path prints to stderr, exits non-zero and writes no CSS")
     prog, m = _main(ctx)
@@ -296,4 +365,4 @@ def rule_c(ctx):
     return r
 
 
-RULES = [rule_a, rule_b, rule_c]
+RULES = [rule_a, rule_a2, rule_b, rule_c]
